@@ -3,6 +3,7 @@ package schema
 import (
 	"encoding/json"
 	"fmt"
+	"maps"
 	"reflect"
 	"strings"
 )
@@ -124,7 +125,7 @@ func (o *ObjectSchema) Unserialize(data any) (result any, err error) {
 	if err != nil {
 		return nil, err
 	}
-	if err := o.validateFieldInterdependencies(rawData); err != nil {
+	if err := o.validateFieldInterdependencies(o.presenceView(rawData)); err != nil {
 		return nil, err
 	}
 
@@ -132,6 +133,37 @@ func (o *ObjectSchema) Unserialize(data any) (result any, err error) {
 		return o.unserializeToStruct(rawData)
 	}
 	return rawData, nil
+}
+
+// presenceView returns the data the presence rules are checked on. In a struct-mapped object the empty value of
+// a treat-empty-as-default property cannot be told apart from its absence once it is stored in the struct, and
+// Validate and Serialize treat it as absent. It therefore does not count as set here either; otherwise
+// Unserialize would accept values that Validate and Serialize reject afterwards.
+func (o *ObjectSchema) presenceView(rawData map[string]any) map[string]any {
+	if o.fieldCache == nil {
+		return rawData
+	}
+	view := rawData
+	copied := false
+	for propertyID, property := range o.PropertiesValue {
+		if !property.emptyIsDefault {
+			continue
+		}
+		value, isSet := rawData[propertyID]
+		if !isSet {
+			continue
+		}
+		emptyValue := reflect.New(property.ReflectedType()).Elem().Interface()
+		if !reflect.DeepEqual(emptyValue, value) {
+			continue
+		}
+		if !copied {
+			view = maps.Clone(rawData)
+			copied = true
+		}
+		delete(view, propertyID)
+	}
+	return view
 }
 
 // inlineShorthandTerminates reports whether treating a lone value as this object's single property ends at a
